@@ -8,7 +8,7 @@
 From Coq Require Import ZArith Bool List.
 From ArmV Require Import Lib.PyZ Lib.Monad Lib.Machine Spec.Pseudocode Spec.Arch Spec.MachineView Spec.Branches Spec.StepFrame
   Spec.OperandSpec Spec.DPSem Proofs.StateLemmas Proofs.CondProofs Proofs.GuardProofs Proofs.DPLemmas Proofs.StepProofs Proofs.StepDP
-  Proofs.StepInstances Proofs.StepInstancesArm Proofs.StepInstancesThumb Proofs.DPRange Proofs.StepDPReg Proofs.StepInstancesArmReg Proofs.StepInstancesCmp Proofs.StepInstancesArmRsr Proofs.StepInstancesThumbReg Proofs.StepInstancesMov Proofs.StepInstancesThumb2 Proofs.StepInstancesShift Proofs.MemProofs Proofs.StepFetch Proofs.StepClosed Proofs.StepInstancesExample.
+  Proofs.StepInstances Proofs.StepInstancesArm Proofs.StepInstancesThumb Proofs.DPRange Proofs.StepDPReg Proofs.StepInstancesArmReg Proofs.StepInstancesCmp Proofs.StepInstancesArmRsr Proofs.StepInstancesThumbReg Proofs.StepInstancesMov Proofs.StepInstancesThumb2 Proofs.StepInstancesShift Proofs.StepInstancesThumb2Reg Proofs.MemProofs Proofs.StepFetch Proofs.StepClosed Proofs.StepInstancesExample.
 From Gen Require Import enums opsyn core exec conc decoders step.
 Import ListNotations.
 Open Scope Z_scope.
@@ -830,6 +830,128 @@ Theorem C01_rorImmediateA1_step cfg s w s1 :
     pc_of (AdvancePC (it_step_after s1 s2)) = add32 (pc_of s1) (opcode_len s1 / 8).
 Proof. exact (rorImmediateA1_step cfg s w s1). Qed.
 Print Assumptions C01_rorImmediateA1_step.
+
+(* the 32-bit Thumb data-processing (shifted register) encodings with a destination: 11101 01 op S Rn : (0) imm3 Rd imm2 type Rm *)
+Theorem C01_andRegisterT2_step cfg s w s1 :
+  ArmV6_fetch_instruction cfg s = Ok w s1 ->
+  0 <= w < 2 ^ 32 -> is_dp_sr_t32 0 0 0 0 w -> iset_of s1 = 1 -> opcode_len s1 = 32 -> ictx cfg s1 -> cond_holds s1 ->
+  let d := bits w 11 8 in let n := bits w 19 16 in let m := bits w 3 0 in
+  let sh := DecodeImmShift (bits w 5 4) (imm5t w) in
+  let op := (code_AndRegister, [w; bit w 20; m; d; n; fst sh; snd sh]) in
+  exists s2,
+    dp_sem cfg AND (bit w 20) (Some d) n (Op2Reg m (fst sh) (snd sh)) (begin_instr s1 op) = Ok tt s2 /\
+    ArmV6_emulate_cycle cfg s = Ok tt (AdvancePC (it_step_after s1 s2)) /\
+    pc_of (AdvancePC (it_step_after s1 s2)) = add32 (pc_of s1) 4.
+Proof. exact (andRegisterT2_step cfg s w s1). Qed.
+Print Assumptions C01_andRegisterT2_step.
+Theorem C01_bicRegisterT2_step cfg s w s1 :
+  ArmV6_fetch_instruction cfg s = Ok w s1 ->
+  0 <= w < 2 ^ 32 -> is_dp_sr_t32 0 0 0 1 w -> iset_of s1 = 1 -> opcode_len s1 = 32 -> ictx cfg s1 -> cond_holds s1 ->
+  let d := bits w 11 8 in let n := bits w 19 16 in let m := bits w 3 0 in
+  let sh := DecodeImmShift (bits w 5 4) (imm5t w) in
+  let op := (code_BicRegister, [w; bit w 20; m; d; n; fst sh; snd sh]) in
+  exists s2,
+    dp_sem cfg BIC (bit w 20) (Some d) n (Op2Reg m (fst sh) (snd sh)) (begin_instr s1 op) = Ok tt s2 /\
+    ArmV6_emulate_cycle cfg s = Ok tt (AdvancePC (it_step_after s1 s2)) /\
+    pc_of (AdvancePC (it_step_after s1 s2)) = add32 (pc_of s1) 4.
+Proof. exact (bicRegisterT2_step cfg s w s1). Qed.
+Print Assumptions C01_bicRegisterT2_step.
+Theorem C01_orrRegisterT2_step cfg s w s1 :
+  ArmV6_fetch_instruction cfg s = Ok w s1 ->
+  0 <= w < 2 ^ 32 -> is_dp_sr_t32 0 0 1 0 w -> iset_of s1 = 1 -> opcode_len s1 = 32 -> ictx cfg s1 -> cond_holds s1 ->
+  let d := bits w 11 8 in let n := bits w 19 16 in let m := bits w 3 0 in
+  let sh := DecodeImmShift (bits w 5 4) (imm5t w) in
+  let op := (code_OrrRegister, [w; bit w 20; m; d; n; fst sh; snd sh]) in
+  exists s2,
+    dp_sem cfg ORR (bit w 20) (Some d) n (Op2Reg m (fst sh) (snd sh)) (begin_instr s1 op) = Ok tt s2 /\
+    ArmV6_emulate_cycle cfg s = Ok tt (AdvancePC (it_step_after s1 s2)) /\
+    pc_of (AdvancePC (it_step_after s1 s2)) = add32 (pc_of s1) 4.
+Proof. exact (orrRegisterT2_step cfg s w s1). Qed.
+Print Assumptions C01_orrRegisterT2_step.
+Theorem C01_ornRegisterT1_step cfg s w s1 :
+  ArmV6_fetch_instruction cfg s = Ok w s1 ->
+  0 <= w < 2 ^ 32 -> is_dp_sr_t32 0 0 1 1 w -> iset_of s1 = 1 -> opcode_len s1 = 32 -> ictx cfg s1 -> cond_holds s1 ->
+  let d := bits w 11 8 in let n := bits w 19 16 in let m := bits w 3 0 in
+  let sh := DecodeImmShift (bits w 5 4) (imm5t w) in
+  let op := (code_OrnRegister, [w; bit w 20; m; d; n; fst sh; snd sh]) in
+  exists s2,
+    dp_sem cfg ORN (bit w 20) (Some d) n (Op2Reg m (fst sh) (snd sh)) (begin_instr s1 op) = Ok tt s2 /\
+    ArmV6_emulate_cycle cfg s = Ok tt (AdvancePC (it_step_after s1 s2)) /\
+    pc_of (AdvancePC (it_step_after s1 s2)) = add32 (pc_of s1) 4.
+Proof. exact (ornRegisterT1_step cfg s w s1). Qed.
+Print Assumptions C01_ornRegisterT1_step.
+Theorem C01_eorRegisterT2_step cfg s w s1 :
+  ArmV6_fetch_instruction cfg s = Ok w s1 ->
+  0 <= w < 2 ^ 32 -> is_dp_sr_t32 0 1 0 0 w -> iset_of s1 = 1 -> opcode_len s1 = 32 -> ictx cfg s1 -> cond_holds s1 ->
+  let d := bits w 11 8 in let n := bits w 19 16 in let m := bits w 3 0 in
+  let sh := DecodeImmShift (bits w 5 4) (imm5t w) in
+  let op := (code_EorRegister, [w; bit w 20; m; d; n; fst sh; snd sh]) in
+  exists s2,
+    dp_sem cfg EOR (bit w 20) (Some d) n (Op2Reg m (fst sh) (snd sh)) (begin_instr s1 op) = Ok tt s2 /\
+    ArmV6_emulate_cycle cfg s = Ok tt (AdvancePC (it_step_after s1 s2)) /\
+    pc_of (AdvancePC (it_step_after s1 s2)) = add32 (pc_of s1) 4.
+Proof. exact (eorRegisterT2_step cfg s w s1). Qed.
+Print Assumptions C01_eorRegisterT2_step.
+Theorem C01_addRegisterThumbT3_step cfg s w s1 :
+  ArmV6_fetch_instruction cfg s = Ok w s1 ->
+  0 <= w < 2 ^ 32 -> is_dp_sr_t32 1 0 0 0 w -> iset_of s1 = 1 -> opcode_len s1 = 32 -> ictx cfg s1 -> cond_holds s1 ->
+  let d := bits w 11 8 in let n := bits w 19 16 in let m := bits w 3 0 in
+  let sh := DecodeImmShift (bits w 5 4) (imm5t w) in
+  let op := (code_AddRegisterThumb, [w; bit w 20; m; d; n; fst sh; snd sh]) in
+  exists s2,
+    dp_sem cfg ADD (bit w 20) (Some d) n (Op2Reg m (fst sh) (snd sh)) (begin_instr s1 op) = Ok tt s2 /\
+    ArmV6_emulate_cycle cfg s = Ok tt (AdvancePC (it_step_after s1 s2)) /\
+    pc_of (AdvancePC (it_step_after s1 s2)) = add32 (pc_of s1) 4.
+Proof. exact (addRegisterThumbT3_step cfg s w s1). Qed.
+Print Assumptions C01_addRegisterThumbT3_step.
+Theorem C01_adcRegisterT2_step cfg s w s1 :
+  ArmV6_fetch_instruction cfg s = Ok w s1 ->
+  0 <= w < 2 ^ 32 -> is_dp_sr_t32 1 0 1 0 w -> iset_of s1 = 1 -> opcode_len s1 = 32 -> ictx cfg s1 -> cond_holds s1 ->
+  let d := bits w 11 8 in let n := bits w 19 16 in let m := bits w 3 0 in
+  let sh := DecodeImmShift (bits w 5 4) (imm5t w) in
+  let op := (code_AdcRegister, [w; bit w 20; m; d; n; fst sh; snd sh]) in
+  exists s2,
+    dp_sem cfg ADC (bit w 20) (Some d) n (Op2Reg m (fst sh) (snd sh)) (begin_instr s1 op) = Ok tt s2 /\
+    ArmV6_emulate_cycle cfg s = Ok tt (AdvancePC (it_step_after s1 s2)) /\
+    pc_of (AdvancePC (it_step_after s1 s2)) = add32 (pc_of s1) 4.
+Proof. exact (adcRegisterT2_step cfg s w s1). Qed.
+Print Assumptions C01_adcRegisterT2_step.
+Theorem C01_sbcRegisterT2_step cfg s w s1 :
+  ArmV6_fetch_instruction cfg s = Ok w s1 ->
+  0 <= w < 2 ^ 32 -> is_dp_sr_t32 1 0 1 1 w -> iset_of s1 = 1 -> opcode_len s1 = 32 -> ictx cfg s1 -> cond_holds s1 ->
+  let d := bits w 11 8 in let n := bits w 19 16 in let m := bits w 3 0 in
+  let sh := DecodeImmShift (bits w 5 4) (imm5t w) in
+  let op := (code_SbcRegister, [w; bit w 20; m; d; n; fst sh; snd sh]) in
+  exists s2,
+    dp_sem cfg SBC (bit w 20) (Some d) n (Op2Reg m (fst sh) (snd sh)) (begin_instr s1 op) = Ok tt s2 /\
+    ArmV6_emulate_cycle cfg s = Ok tt (AdvancePC (it_step_after s1 s2)) /\
+    pc_of (AdvancePC (it_step_after s1 s2)) = add32 (pc_of s1) 4.
+Proof. exact (sbcRegisterT2_step cfg s w s1). Qed.
+Print Assumptions C01_sbcRegisterT2_step.
+Theorem C01_subRegisterT2_step cfg s w s1 :
+  ArmV6_fetch_instruction cfg s = Ok w s1 ->
+  0 <= w < 2 ^ 32 -> is_dp_sr_t32 1 1 0 1 w -> iset_of s1 = 1 -> opcode_len s1 = 32 -> ictx cfg s1 -> cond_holds s1 ->
+  let d := bits w 11 8 in let n := bits w 19 16 in let m := bits w 3 0 in
+  let sh := DecodeImmShift (bits w 5 4) (imm5t w) in
+  let op := (code_SubRegister, [w; bit w 20; m; d; n; fst sh; snd sh]) in
+  exists s2,
+    dp_sem cfg SUB (bit w 20) (Some d) n (Op2Reg m (fst sh) (snd sh)) (begin_instr s1 op) = Ok tt s2 /\
+    ArmV6_emulate_cycle cfg s = Ok tt (AdvancePC (it_step_after s1 s2)) /\
+    pc_of (AdvancePC (it_step_after s1 s2)) = add32 (pc_of s1) 4.
+Proof. exact (subRegisterT2_step cfg s w s1). Qed.
+Print Assumptions C01_subRegisterT2_step.
+Theorem C01_rsbRegisterT1_step cfg s w s1 :
+  ArmV6_fetch_instruction cfg s = Ok w s1 ->
+  0 <= w < 2 ^ 32 -> is_dp_sr_t32 1 1 1 0 w -> iset_of s1 = 1 -> opcode_len s1 = 32 -> ictx cfg s1 -> cond_holds s1 ->
+  let d := bits w 11 8 in let n := bits w 19 16 in let m := bits w 3 0 in
+  let sh := DecodeImmShift (bits w 5 4) (imm5t w) in
+  let op := (code_RsbRegister, [w; bit w 20; m; d; n; fst sh; snd sh]) in
+  exists s2,
+    dp_sem cfg RSB (bit w 20) (Some d) n (Op2Reg m (fst sh) (snd sh)) (begin_instr s1 op) = Ok tt s2 /\
+    ArmV6_emulate_cycle cfg s = Ok tt (AdvancePC (it_step_after s1 s2)) /\
+    pc_of (AdvancePC (it_step_after s1 s2)) = add32 (pc_of s1) 4.
+Proof. exact (rsbRegisterT1_step cfg s w s1). Qed.
+Print Assumptions C01_rsbRegisterT1_step.
 
 (* no hypothesis left about the stages of the cycle: ARM state, flat memory map (PMSA, MPU off), word-aligned PC; the instruction is
    whatever word the memory holds at the PC (Props/C13step.v discharges the fetch) *)
